@@ -312,9 +312,11 @@ impl<W: WriteColor> SearchWorker<W> {
                 ),
             )
         })?;
+        // Keep the kind of the error: a broken pipe on stdout must still be
+        // recognized as such by the caller.
         let result = self.search_reader(path, &mut rdr).map_err(|err| {
             io::Error::new(
-                io::ErrorKind::Other,
+                err.kind(),
                 format!("preprocessor command failed: '{:?}': {}", cmd, err),
             )
         });
